@@ -291,7 +291,9 @@ pub fn multi_proofs(rec: &mut Rec) {
     type S = SLig;
     let q = modulus_of::<Fr381>();
     let cfg = KeyCfg::uni(1 << 20, 1 << 20, 1, None);
-    let degs = [3usize, 40, 300, 1100];
+    // sizes with different column counts, and sizes with the same column count but different row counts
+    // (199/399, 250/500 with the default parameters)
+    let degs = [3usize, 40, 199, 250, 300, 399, 500, 1100];
     let r = rho_stream::<Fr381>(rec.seed, 9, 1101);
     let keys = match build_keys::<S>(&cfg, rec.seed) {
         Ok(k) => k,
@@ -300,7 +302,7 @@ pub fn multi_proofs(rec: &mut Rec) {
     let z = <S as Sch>::points(&cfg, rec.seed)[0].1.clone();
     for i in 0..degs.len() {
         for j in 0..degs.len() {
-            for k in [None, Some((i + 2) % degs.len())] {
+            for k in [None, Some((i + 3) % degs.len())] {
                 let mut sel = vec![degs[i], degs[j]];
                 if let Some(k) = k {
                     sel.push(degs[k]);
